@@ -18,6 +18,7 @@ use std::path::PathBuf;
 use vharness::common::*;
 
 const BASE: i64 = 1_700_006_400_000; // a midnight (UTC)
+static MISSING: std::sync::atomic::AtomicU64 = std::sync::atomic::AtomicU64::new(0);
 type Uid = [u8; 16];
 type Key = (usize, u64, i64);
 
@@ -38,7 +39,7 @@ enum Op {
     SDelEdges(Vec<(usize, usize, u64, usize, i64, i64, usize)>), // room src ent dest cdate date sig
 }
 #[derive(Clone, Debug)]
-enum Api { Tick(i64), Call(Op), Ingest(Op), Compute, Stream(Vec<Op>) }
+enum Api { Tick(i64), Call(Op), Calls(Vec<Op>), Ingest(Op), Compute, Stream(Vec<Op>) }
 #[derive(Clone, Debug)]
 enum Tev { W(Vec<Key>), E(Vec<Key>), Q }
 
@@ -78,11 +79,13 @@ impl Inst {
         assert!(inst.names.person < inst.names.pet);
         inst
     }
-    /// one DataChanged event per processed ComputeDailyLog: the recompute barrier
+    /// one DataChanged event per processed ComputeDailyLog. Every wait is bounded: an event that does
+    /// not come within the bound is an OBSERVATION (recorded as an empty event, counted in the meta
+    /// data): the oracle then reports the acknowledged change that was never announced
     async fn wait_events(&mut self, n: usize) -> Vec<Vec<(String, String, i64)>> {
         let mut out = vec![];
         while out.len() < n {
-            match tokio::time::timeout(std::time::Duration::from_secs(20), self.ev.recv()).await {
+            match tokio::time::timeout(std::time::Duration::from_secs(5), self.ev.recv()).await {
                 Ok(Ok(Event::DataChanged(d))) => {
                     let mut v = vec![];
                     for (r, m) in &d.rooms { for (e, ds) in m { for d in ds { v.push((r.clone(), e.clone(), *d)); } } }
@@ -90,8 +93,9 @@ impl Inst {
                     out.push(v);
                 }
                 Ok(Ok(_)) => {}
+                Ok(Err(tokio::sync::broadcast::error::RecvError::Lagged(_))) => {}
                 Ok(Err(e)) => panic!("event channel: {:?}", e),
-                Err(_) => panic!("timeout waiting for the recompute event"),
+                Err(_) => { MISSING.fetch_add(1, std::sync::atomic::Ordering::SeqCst); break; }
             }
         }
         out
@@ -199,13 +203,34 @@ fn tick(scn: &mut Scn, t: i64) {
     if t != scn.now { scn.now = t; verif_clock::set(t); scn.prog.push(Api::Tick(t)); scn.trace.push(Tev::W(vec![])); }
 }
 /// bookkeeping of a call that requests a recompute after its acknowledgement (mutate, delete)
+fn first_event(scn: &Scn, ev: &[Vec<(String, String, i64)>]) -> Vec<Key> { match ev.first() { Some(e) => scn.ev_keys(e), None => vec![] } }
 async fn finish_call(inst: &mut Inst, scn: &mut Scn, op: Op) {
     let w = changed(inst, scn).await;
     let ev = inst.wait_events(1).await;
     scn.trace.push(Tev::W(w));
-    scn.trace.push(Tev::E(scn.ev_keys(&ev[0])));
+    scn.trace.push(Tev::E(first_event(scn, &ev)));
     scn.trace.push(Tev::Q);
     scn.prog.push(Api::Call(op));
+}
+/// one request that writes several rows: the model accounts the changed keys per row written, the
+/// harness knows them from the result of the request (and checks the union against the tables)
+async fn finish_calls(inst: &mut Inst, scn: &mut Scn, ops: Vec<(Op, Vec<Key>)>) {
+    let w = changed(inst, scn).await;
+    let ev = inst.wait_events(1).await;
+    let mut union: Vec<Key> = ops.iter().flat_map(|(_, k)| k.clone()).collect();
+    union.sort(); union.dedup();
+    let mut wt = w.clone(); wt.sort();
+    if wt != union { scn.bump("calls_changed_keys_differ_from_tables"); }
+    if ops.is_empty() { // refused request: nothing was written, only the recompute it requests is visible
+        scn.trace.push(Tev::E(first_event(scn, &ev)));
+        scn.trace.push(Tev::Q);
+        scn.prog.push(Api::Compute);
+        return;
+    }
+    for (_, k) in &ops { scn.trace.push(Tev::W(k.iter().cloned().filter(|x| w.contains(x)).collect())); }
+    scn.trace.push(Tev::E(first_event(scn, &ev)));
+    scn.trace.push(Tev::Q);
+    scn.prog.push(Api::Calls(ops.into_iter().map(|(o, _)| o).collect()));
 }
 async fn finish_ingest(inst: &mut Inst, scn: &mut Scn, op: Op) {
     let w = changed(inst, scn).await;
@@ -215,7 +240,7 @@ async fn finish_ingest(inst: &mut Inst, scn: &mut Scn, op: Op) {
 async fn do_compute(inst: &mut Inst, scn: &mut Scn) {
     inst.app.compute_daily_log().await;
     let ev = inst.wait_events(1).await;
-    scn.trace.push(Tev::E(scn.ev_keys(&ev[0])));
+    scn.trace.push(Tev::E(first_event(scn, &ev)));
     scn.trace.push(Tev::Q);
     scn.prog.push(Api::Compute);
 }
@@ -264,6 +289,58 @@ async fn l_addref(inst: &mut Inst, scn: &mut Scn, si: usize, di: usize) {
     };
     finish_call(inst, scn, Op::LAddRef { src: s.idx, ent: 1, dest: d.idx, sig }).await;
 }
+fn key_of(room: Option<usize>, ent: u64, t: i64) -> Vec<Key> { match room { Some(r) => vec![(r, ent, t.div_euclid(DAY) * DAY)], None => vec![] } }
+/// an owner row and a nested row created in one request
+async fn l_nested_create(inst: &mut Inst, scn: &mut Scn, oroom: Option<usize>, croom: Option<usize>) {
+    let mut p = Parameters::default();
+    let o = match oroom { Some(r) => { p.add("ro", base64_encode(&scn.rooms[r])).unwrap(); "room_id:$ro " } None => "" };
+    let c = match croom { Some(r) => { p.add("rc", base64_encode(&scn.rooms[r])).unwrap(); "room_id:$rc " } None => "" };
+    let q = format!("mutate {{ ns.Person{{ {}name:\"o\" parents:[{{ {}name:\"n\" }}] }} }}", o, c);
+    let r = inst.app.mutate_raw(&q, Some(p)).await.unwrap();
+    let ie = &r.mutate_entities[0];
+    let on = ie.node_to_mutate.node.as_ref().unwrap();
+    let cn = ie.sub_nodes.get("parents").unwrap()[0].node_to_mutate.node.as_ref().unwrap();
+    let (oid, cid) = (scn.new_id(on.id), scn.new_id(cn.id));
+    let (osig, csig) = (scn.sig(&on._signature), scn.sig(&cn._signature));
+    let ro = on.room_id.and_then(|u| scn.rooms.iter().position(|x| *x == u));
+    let rc = cn.room_id.and_then(|u| scn.rooms.iter().position(|x| *x == u));
+    scn.nodes.push(Shadow { idx: oid, uid: on.id, ent: 1, room: ro, mdate: on.mdate, alive: true });
+    scn.nodes.push(Shadow { idx: cid, uid: cn.id, ent: 1, room: rc, mdate: cn.mdate, alive: true });
+    scn.edges.push((oid, cid, ie.edge_insertions[0].cdate));
+    scn.bump("l_nested_create");
+    let now = scn.now;
+    finish_calls(inst, scn, vec![(Op::LCreate { id: oid, room: ro, ent: 1, sig: osig }, key_of(ro, 1, now)),
+                                 (Op::LCreate { id: cid, room: rc, ent: 1, sig: csig }, key_of(rc, 1, now)),
+                                 (Op::LAddRef { src: oid, ent: 1, dest: cid, sig: osig }, vec![])]).await;
+}
+/// a row updated through another one: mutate { ns.Person{ id:$p parents:[{ id:$c name }] } }
+async fn l_via(inst: &mut Inst, scn: &mut Scn, pi: usize, ci: usize) {
+    let (ps, cs) = (scn.nodes[pi].clone(), scn.nodes[ci].clone());
+    let mut p = Parameters::default();
+    p.add("p", base64_encode(&ps.uid)).unwrap();
+    p.add("c", base64_encode(&cs.uid)).unwrap();
+    let q = format!("mutate {{ ns.Person{{ id:$p parents:[{{ id:$c name:\"v{}\" }}] }} }}", scn.now % 1000);
+    let r = inst.app.mutate_raw(&q, Some(p)).await;
+    let now = scn.now;
+    match &r {
+        Ok(m) => {
+            let ie = &m.mutate_entities[0];
+            let (psig, pk) = match &ie.node_to_mutate.node {
+                Some(n) => { let sg = scn.sig(&n._signature); scn.nodes[pi].mdate = n.mdate; scn.edges.push((ps.idx, cs.idx, ie.edge_insertions[0].cdate));
+                             let mut k = key_of(ps.room, 1, ps.mdate); k.extend(key_of(ps.room, 1, now)); (sg, k) }
+                None => (0, vec![]),
+            };
+            let cn = ie.sub_nodes.get("parents").unwrap()[0].node_to_mutate.node.as_ref().unwrap();
+            let csig = scn.sig(&cn._signature);
+            scn.nodes[ci].mdate = cn.mdate;
+            let mut ck = key_of(cs.room, 1, cs.mdate); ck.extend(key_of(cs.room, 1, now));
+            scn.bump(if psig == 0 { "l_via_unchanged_parent" } else { "l_via_new_reference" });
+            finish_calls(inst, scn, vec![(Op::LAddRef { src: ps.idx, ent: 1, dest: cs.idx, sig: psig }, pk), (Op::LUpdate { id: cs.idx, ent: 1, room: None, sig: csig }, ck)]).await;
+        }
+        Err(_) => { scn.bump("l_via_err"); finish_calls(inst, scn, vec![]).await; }
+    }
+}
+
 async fn l_delnode(inst: &mut Inst, scn: &mut Scn, ni: usize) {
     let sh = scn.nodes[ni].clone();
     let mut p = Parameters::default();
@@ -349,7 +426,7 @@ async fn stream(inst: &mut Inst, scn: &mut Scn, targets: Vec<(usize, u64)>) {
     drop(send);
     let results = drain.await.unwrap();
     let ev = inst.wait_events(1).await;
-    let evk = scn.ev_keys(&ev[0]);
+    let evk = first_event(scn, &ev);
     let day = scn.now.div_euclid(DAY) * DAY;
     // schedule oracle: a mutation committed after (or in the same batch as) the stream-end recompute leaves its key dirty
     let mut dirty_after: HashSet<Key> = HashSet::new();
@@ -413,6 +490,7 @@ fn api_coq(a: &Api, f: &Fin) -> String {
     match a {
         Api::Tick(t) => format!("ATick {}", gz(*t)),
         Api::Call(o) => format!("ACall ({})", op_coq(o, f)),
+        Api::Calls(os) => format!("ACalls {}", glist(&os.iter().map(|o| op_coq(o, f)).collect::<Vec<_>>())),
         Api::Ingest(o) => format!("AIngest ({})", op_coq(o, f)),
         Api::Compute => "ACompute".to_string(),
         Api::Stream(os) => format!("AStream {}", glist(&os.iter().map(|o| op_coq(o, f)).collect::<Vec<_>>())),
@@ -454,7 +532,7 @@ fn emit_seq(out: &mut Out, scn: &Scn, kind: &str) {
     let announced: usize = scn.trace.iter().map(|e| if let Tev::E(k) = e { k.len() } else { 0 }).sum();
     let touched: usize = scn.trace.iter().map(|e| if let Tev::W(k) = e { k.len() } else { 0 }).sum();
     out.push(Case { kind: kind.into(), coq: format!("CSeq {} {}", gz(scn.t0), prog), obs,
-                    meta: json!({"calls": scn.prog.len(), "keys_touched": touched, "keys_announced": announced, "ops": scn.stats, "case_no": scn.case_no}) });
+                    meta: json!({"missing_events": MISSING.load(std::sync::atomic::Ordering::SeqCst), "calls": scn.prog.len(), "keys_touched": touched, "keys_announced": announced, "ops": scn.stats, "case_no": scn.case_no}) });
 }
 
 // ---------------------------------------------------------------- cases
@@ -471,7 +549,12 @@ async fn seq_case(inst: &mut Inst, out: &mut Out, rng: &mut Rng, case_no: u64, w
         let persons: Vec<usize> = alive.iter().cloned().filter(|i| scn.nodes[*i].ent == 1).collect();
         let room = rng.below(nrooms as u64) as usize;
         match rng.below(100) {
-            0..=21 => { let r = if rng.chance(1, 12) { None } else { Some(room) }; l_create(inst, &mut scn, 1 + rng.below(2), r).await; }
+            0..=15 => { let r = if rng.chance(1, 12) { None } else { Some(room) }; l_create(inst, &mut scn, 1 + rng.below(2), r).await; }
+            16..=21 => {
+                let o = if rng.chance(1, 3) { None } else { Some(room) };
+                let c = match rng.below(3) { 0 => None, 1 => Some(room), _ => Some(rng.below(nrooms as u64) as usize) };
+                l_nested_create(inst, &mut scn, o, c).await;
+            }
             22..=37 if !alive.is_empty() => { let ni = *rng.pick(&alive); let mv = if rng.chance(1, 3) { Some(room) } else { None }; l_update(inst, &mut scn, ni, mv).await; }
             38..=45 if !alive.is_empty() => { let ni = *rng.pick(&alive); l_delnode(inst, &mut scn, ni).await; }
             46..=60 => {
@@ -487,7 +570,11 @@ async fn seq_case(inst: &mut Inst, out: &mut Out, rng: &mut Rng, case_no: u64, w
                 let ni = *rng.pick(&alive); let sh = scn.nodes[ni].clone();
                 if let Some(r) = sh.room { let dd = scn.now - 1; s_delnodes(inst, &mut scn, r, ni, sh.mdate, dd).await; if rng.chance(2, 3) { do_compute(inst, &mut scn).await; } }
             }
-            67..=72 if persons.len() >= 2 => { let s = *rng.pick(&persons); let d = *rng.pick(&persons); l_addref(inst, &mut scn, s, d).await; }
+            67..=69 if persons.len() >= 2 => { let s = *rng.pick(&persons); let d = *rng.pick(&persons); l_addref(inst, &mut scn, s, d).await; }
+            70..=72 if persons.len() >= 2 => {
+                let (pi, ci) = if !scn.edges.is_empty() && rng.chance(2, 3) { let e = *rng.pick(&scn.edges); (scn.nodes.iter().position(|n| n.idx == e.0).unwrap(), scn.nodes.iter().position(|n| n.idx == e.1).unwrap()) } else { (*rng.pick(&persons), *rng.pick(&persons)) };
+                if pi != ci && scn.nodes[pi].alive && scn.nodes[ci].alive && scn.nodes[pi].ent == 1 && scn.nodes[ci].ent == 1 { l_via(inst, &mut scn, pi, ci).await; }
+            }
             73..=77 if persons.len() >= 2 && !clean => { let s = *rng.pick(&persons); let d = *rng.pick(&persons); l_delref(inst, &mut scn, s, d).await; }
             78..=92 if with_streams => {
                 let mut targets = vec![];
@@ -539,6 +626,54 @@ async fn conc_case(inst: &mut Inst, out: &mut Out, rng: &mut Rng, case_no: u64) 
     let nonempty_events = evs.iter().filter(|e| !e.is_empty()).count();
     out.push(Case { kind: "concurrent".into(), coq: format!("CConc {} {}", gz(scn.t0), glist(&os)), obs: enc_trace(&scn.trace, &f),
                     meta: json!({"tasks": targets.len(), "events_with_keys": nonempty_events, "case_no": case_no}) });
+}
+
+/// two overlapping callers of very different size: a request that writes `big` nested rows in room 0,
+/// submitted first, and a one-row request in room 1 right behind it (tokio::join!): the small one is
+/// acknowledged first. After both acknowledgements and a bounded wait for their two recompute events,
+/// every key they changed must have been announced.
+async fn overlap_case(inst: &mut Inst, out: &mut Out, rng: &mut Rng, case_no: u64) {
+    let mut scn = new_scn(inst, case_no, 2).await;
+    let big = 150 + rng.below(150) as usize;
+    let mut nested = String::new();
+    for i in 0..big { if i > 0 { nested.push(','); } nested.push_str(&format!("{{name:\"n{}\"}}", i)); }
+    let qa = format!("mutate {{ ns.Person{{ room_id:$room_id name:\"big\" parents:[{}] }} }}", nested);
+    let qb = "mutate { ns.Pet{ room_id:$room_id name:\"small\" } }".to_string();
+    let (ra, rb) = (scn.rooms[0], scn.rooms[1]);
+    let (app1, app2) = (inst.app.clone(), inst.app.clone());
+    let fa = async move { let mut p = Parameters::default(); p.add("room_id", base64_encode(&ra)).unwrap(); app1.mutate_raw(&qa, Some(p)).await.unwrap() };
+    let fb = async move { let mut p = Parameters::default(); p.add("room_id", base64_encode(&rb)).unwrap(); app2.mutate_raw(&qb, Some(p)).await.unwrap() };
+    let (resa, resb) = tokio::join!(fa, fb);
+    let evs = inst.wait_events(2).await;
+    let day = scn.now.div_euclid(DAY) * DAY;
+    let mut ops = vec![];
+    let ie = &resa.mutate_entities[0];
+    let on = ie.node_to_mutate.node.as_ref().unwrap();
+    let oid = scn.new_id(on.id);
+    let osig = scn.sig(&on._signature);
+    ops.push(Op::LCreate { id: oid, room: Some(0), ent: 1, sig: osig });
+    scn.trace.push(Tev::W(vec![(0, 1, day)]));
+    for sub in ie.sub_nodes.get("parents").unwrap() {
+        let cn = sub.node_to_mutate.node.as_ref().unwrap();
+        let cid = scn.new_id(cn.id);
+        let csig = scn.sig(&cn._signature);
+        ops.push(Op::LCreate { id: cid, room: Some(0), ent: 1, sig: csig });
+        scn.trace.push(Tev::W(vec![(0, 1, day)]));
+    }
+    let bn = resb.mutate_entities[0].node_to_mutate.node.as_ref().unwrap();
+    let bid = scn.new_id(bn.id);
+    let bsig = scn.sig(&bn._signature);
+    ops.push(Op::LCreate { id: bid, room: Some(1), ent: 2, sig: bsig });
+    scn.trace.push(Tev::W(vec![(1, 2, day)]));
+    let mut all = vec![];
+    for e in &evs { all.extend(scn.ev_keys(e)); }
+    scn.trace.push(Tev::E(all));
+    scn.trace.push(Tev::Q);
+    let f = Fin { sig: rank_map(&scn.sigs), room: rank_map(&scn.rooms) };
+    let mut os = vec![format!("Tick {}", gz(scn.now))];
+    os.extend(ops.iter().map(|o| op_coq(o, &f)));
+    out.push(Case { kind: "overlap".into(), coq: format!("CConc {} {}", gz(scn.t0), glist(&os)), obs: enc_trace(&scn.trace, &f),
+                    meta: json!({"big_rows": big + 1, "events_received": evs.len(), "missing_events": MISSING.load(std::sync::atomic::Ordering::SeqCst), "case_no": case_no}) });
 }
 
 async fn room_case(inst: &mut Inst, out: &mut Out, rng: &mut Rng, case_no: u64) {
@@ -611,6 +746,23 @@ async fn main() {
         emit_seq(&mut out, &scn, "directed-edge-tombstone");
         case_no += 1;
     }
+    { // directed: rows updated through an unchanged parent (same room / another room / another day), then through a room-less owner
+        let mut scn = new_scn(&mut inst, case_no, 2).await;
+        l_nested_create(&mut inst, &mut scn, Some(0), None).await;   // 0 owner, 1 nested (room 0)
+        l_create(&mut inst, &mut scn, 1, Some(1)).await;              // 2 (room 1)
+        l_via(&mut inst, &mut scn, 0, 2).await;                        // new reference
+        tick(&mut scn, BASE + DAY + 40);
+        l_via(&mut inst, &mut scn, 0, 1).await;                        // unchanged parent, nested row in the same room, other day
+        l_via(&mut inst, &mut scn, 0, 2).await;                        // unchanged parent, nested row in another room
+        l_nested_create(&mut inst, &mut scn, None, Some(0)).await;    // 3 room-less owner, 4 shared nested row
+        tick(&mut scn, BASE + 2 * DAY + 40);
+        l_update(&mut inst, &mut scn, 4, None).await;
+        l_via(&mut inst, &mut scn, 3, 4).await;                        // through the room-less owner
+        l_via(&mut inst, &mut scn, 3, 2).await;                        // new reference from a room-less row
+        emit_seq(&mut out, &scn, "directed-nested");
+        case_no += 1;
+    }
+    for _ in 0..scale(4, 20) { let mut r = rng.fork(); overlap_case(&mut inst, &mut out, &mut r, case_no).await; case_no += 1; }
     for i in 0..n {
         let mut r = rng.fork();
         match i % 6 {
